@@ -53,6 +53,9 @@ CHECKS["C12"] = ("small-scope exhaustive enumeration of all SET/DB/DW sequences 
 CHECKS["C13"] = ("exhaustive enumeration of every macro use graph over up to 3 (4) macros plus parameter-name/template/argument-kind products; differential oracle: real Preprocessor on the macro program vs. real Preprocessor on the reference (textual, whole-word) expansion; deep chains through the real binary in child processes",
     "All 2^(n*n) use graphs for n<=3 macros (n=4 in thorough) used from top level and from a procedure: acyclic ones must emit exactly the hand-expanded body, cyclic/unknown ones must be refused with a diagnostic at a use site; colliding parameter names x 9 body templates x 16 argument kinds; by-name passing; chains to depth 64 exactly and to 4096 without abort.",
     "DESIGN.md section 6 C13")
+CHECKS["C14"] = ("exhaustive enumeration of every applicable single semantic mutation (about 190 invalid lines x insertion positions, structural mutations, all unsupported INT numbers) of verified-valid base programs; each mutant checked at library level and through the real CLI binary",
+    "Every mutant must be refused: Preprocessor Err or the driver-level label/start checks, and on the real binary a non-empty diagnostic with no program output, prompt or interrupt output; base programs are first verified to run and print so that silence means refusal.",
+    "DESIGN.md section 6 C14")
 NOT_YET = {}
 
 def main():
